@@ -19,9 +19,10 @@ import (
 type counters struct {
 	transitions, evaluations, nontrivial, expectedFail, noops int64
 	outOfBound, batchStrictOrder, batchChanged                int64
-	installs, hardResets, opens, rawDumps                     int64
+	hardResets, opens, rawDumps                               int64
 	createBatchUsed, fullReads, keyRemovalChecks              int64
 	backupCases, backupGen2Cases                              int64
+	aborted                                                   int32
 }
 
 // worker owns one long-lived real rdb.RDB in its own directory.
@@ -68,7 +69,7 @@ func (w *worker) open() {
 
 // hardReset throws the directory away and starts from an empty store.
 func (w *worker) hardReset() {
-	atomic.AddInt64(&w.ct.hardResets, 1)
+	w.countReset()
 	if w.db != nil {
 		w.db.Close()
 		w.db = nil
@@ -86,7 +87,16 @@ func (w *worker) hardReset() {
 // Context, so the read goes to the database) is the primary observation; with
 // full, Find (fresh Context of its own) and FindFirst must agree with it.
 func (w *worker) observe(full bool) (c content, problems []string) {
-	ctx := rdb.NewContext() // one look-up cycle over distinct keys
+	c, problems = w.readLists()
+	if full {
+		problems = append(problems, w.checkFinds(c)...)
+	}
+	return c, problems
+}
+
+// readLists: ForEach on every key of the alphabet (one look-up cycle).
+func (w *worker) readLists() (c content, problems []string) {
+	ctx := rdb.NewContext()
 	for k := 0; k < nKeys; k++ {
 		var l []string
 		err := w.db.ForEach(keyBytes[k], func(v []byte) error { l = append(l, string(v)); return nil }, ctx)
@@ -95,12 +105,13 @@ func (w *worker) observe(full bool) (c content, problems []string) {
 		}
 		c[k] = l
 	}
-	atomic.AddInt64(&w.ct.evaluations, nKeys)
-	if !full {
-		return c, problems
-	}
-	atomic.AddInt64(&w.ct.fullReads, 1)
-	ctx = rdb.NewContext()
+	return c, problems
+}
+
+// checkFinds: Find on every key and FindFirst in both key orders must agree
+// with what ForEach returned (nKeys+2 comparisons).
+func (w *worker) checkFinds(c content) (problems []string) {
+	ctx := rdb.NewContext()
 	for k := 0; k < nKeys; k++ {
 		l := c[k]
 		v, err := w.db.Find(keyBytes[k], ctx)
@@ -112,8 +123,6 @@ func (w *worker) observe(full bool) (c content, problems []string) {
 			problems = append(problems, fmt.Sprintf("find-first: Find(%s) = %q, %v; ForEach gives %q", keyNames[k], v, err, l))
 		}
 	}
-	atomic.AddInt64(&w.ct.evaluations, nKeys)
-	// FindFirst: first value of the first existing key, in both key orders.
 	for _, ord := range [][2]int{{0, 1}, {1, 0}} {
 		v, idx, err := w.db.FindFirst([][]byte{keyBytes[ord[0]], keyBytes[ord[1]]})
 		wantIdx, wantV := -1, ""
@@ -126,9 +135,8 @@ func (w *worker) observe(full bool) (c content, problems []string) {
 		if err != nil || idx != wantIdx || (wantIdx >= 0 && string(v) != wantV) || (wantIdx < 0 && v != nil) {
 			problems = append(problems, fmt.Sprintf("findfirst: FindFirst(%s,%s) = %q, %d, %v; want %q, %d", keyNames[ord[0]], keyNames[ord[1]], v, idx, err, wantV, wantIdx))
 		}
-		atomic.AddInt64(&w.ct.evaluations, 1)
 	}
-	return c, problems
+	return problems
 }
 
 // contentKey is a cheap injective key of a content.
@@ -163,7 +171,6 @@ func (w *worker) install(s state) bool {
 	if w.cur.equal(want) {
 		return true
 	}
-	atomic.AddInt64(&w.ct.installs, 1)
 	for attempt := 0; attempt < 2; attempt++ {
 		ok := true
 		for k := 0; k < nKeys && ok; k++ {
@@ -300,14 +307,16 @@ func (w *worker) step(s state, o op, useCreateBatch bool, fullSeen map[string]bo
 		w.hardReset()
 		return content{}, false
 	}
-	got, problems := w.observe(false)
+	got, problems := w.readLists()
+	atomic.AddInt64(&w.ct.evaluations, 1+nKeys) // error outcome + each key's list
 	if ck := contentKey(got); !fullSeen[ck] {
 		fullSeen[ck] = true
-		got, problems = w.observe(true)
+		problems = append(problems, w.checkFinds(got)...)
+		atomic.AddInt64(&w.ct.fullReads, 1)
+		atomic.AddInt64(&w.ct.evaluations, nKeys+2)
 	}
 	w.cur = got
 	w.readProblems(got, problems)
-	atomic.AddInt64(&w.ct.evaluations, 1+nKeys)
 	fail := func(kind, f string, a ...interface{}) {
 		w.fs.add(failure{kind: kind, c: before, o: o,
 			detail: fmt.Sprintf("store %s, operation %s: ", before, o) + fmt.Sprintf(f, a...) + fmt.Sprintf("\nreturned error: %v\nstore afterwards: %s", err, got)})
@@ -633,8 +642,20 @@ func (w *worker) backupRestore(s state, gen2 bool) {
 func (w *worker) hardResetClosed() {
 	os.RemoveAll(w.dir)
 	os.MkdirAll(w.dir, 0o755)
-	atomic.AddInt64(&w.ct.hardResets, 1)
+	w.countReset()
 }
+
+// maxHardResets: a store that has to be thrown away this often is grossly
+// broken; the search then stops early (exhaustive=false) and reports what it has.
+const maxHardResets = 400
+
+func (w *worker) countReset() {
+	if atomic.AddInt64(&w.ct.hardResets, 1) >= maxHardResets {
+		atomic.StoreInt32(&w.ct.aborted, 1)
+	}
+}
+
+func (ct *counters) isAborted() bool { return atomic.LoadInt32(&ct.aborted) != 0 }
 
 func (w *worker) backupInto(c content, bdir, rdir, tag string, openIt bool) bool {
 	os.MkdirAll(bdir, 0o755)
